@@ -642,6 +642,35 @@ theorem config_tree_reachable_least_cost (c : Config α) (h : c.EdgeLocal) {sour
       SearchRoute.tree_paths_optimal_on (c.inst_wf h.adj) (c.uniformCostOn h) hra hp
     exact ⟨hw, hsum, hmin⟩
 
+/-- **C02 through the edge-oriented wrapper** (`search_algorithm::run_edge_oriented`, non-adjacent
+origin and destination edges): the summed cost of the returned route is the least cost of a valid
+walk from the origin edge's head to the destination edge's tail, attained by its inner part -/
+theorem config_edge_oriented_route_least_cost (c : Config α) (h : c.EdgeLocal) (hwf : 0 ≤ c.wfOf)
+    (source tgt : Nat) (sched : List Nat) (r : AlgResult α)
+    (e1 e2 : EdgeRec α) (h1 : c.edges[source]? = some e1) (h2 : c.edges[tgt]? = some e2)
+    (hne : source ≠ tgt) (hnadj : e1.dst ≠ e2.src)
+    (hadm : Admissible c.inst c.okOf c.costOf c.hOf e2.src)
+    (hrun : c.runEdge source (some tgt) sched = .ok r) :
+    ∃ (route inner : List (Branch α)) (last : Branch α), r.routes = [route] ∧
+      route = SearchRoute.originBranch c source e1 :: inner
+        ++ [SearchRoute.destBranch tgt e2 last.state] ∧
+      Walk c.inst c.okOf e1.dst (inner.map (·.edge)) e2.src ∧
+      (route.map (fun b => b.access + b.traversal)).sum = cost c.costOf (inner.map (·.edge)) ∧
+      ∀ es, Walk c.inst c.okOf e1.dst es e2.src →
+        (route.map (fun b => b.access + b.traversal)).sum ≤ cost c.costOf es :=
+  SearchRoute.runEdge_route_optimal_on c h.adj (c.uniformOn h hwf) source tgt sched r e1 e2 h1 h2
+    hne hnadj hadm hrun
+
+/-- when the formula is positive the floor is not in the way: `costOf` *is* the weighted sum -/
+theorem Config.costOf_sum_of_pos (c : Config α) (hs : c.cost.agg = .sum) (e : Nat)
+    (hpos : 0 <
+      (c.cost.indices.map fun i => c.cost.wt i * (c.cost.vr i).mapValue (c.edgeDelta e i)).sum
+        + (c.cost.indices.map fun i => c.cost.wt i * (c.cost.nr i).traversalCost e).sum) :
+    c.costOf e =
+      (c.cost.indices.map fun i => c.cost.wt i * (c.cost.vr i).mapValue (c.edgeDelta e i)).sum
+        + (c.cost.indices.map fun i => c.cost.wt i * (c.cost.nr i).traversalCost e).sum := by
+  rw [c.costOf_sum hs e, enforceStrictlyPositive_of_pos hpos]
+
 /-! ### The state change of an edge, spelled out for the two traversal models -/
 
 theorem Config.edgeDelta_distance (c : Config α) {du : DistanceUnit} (ht : c.trav = .distance du)
